@@ -22,7 +22,22 @@ C14_CLAUSES = ('len', 'order', 'getitem', 'slice', 'member', 'exc-parity', 'muta
                'typeerror', 'refused-changed', 'derived', 'observer-crash')
 C15_CLAUSES = ('stale', 'wrong', 'missing', 'crash')
 
-NON_DICTS = [5, 'row', None, ['id'], ('id', 1), 2.5]
+NON_DICTS = [5, 'row', None, ['id'], ('id', 1), 2.5, '<sortabledict-with-list>', '<userdict-with-list>', '<mappingproxy-with-na>']
+
+
+def non_dict(hs, i):
+    """A value that is not a dict; some are mappings (they have .values()) holding a 3.0-only cell, which a grid
+    must refuse with TypeError without looking inside."""
+    v = NON_DICTS[i % len(NON_DICTS)]
+    if v == '<sortabledict-with-list>':
+        from hszinc.sortabledict import SortableDict
+        return SortableDict([('id', 'm1'), ('v', [1, 2])])
+    if v == '<userdict-with-list>':
+        return collections.UserDict({'id': 'm2', 'v': [1]})
+    if v == '<mappingproxy-with-na>':
+        import types
+        return types.MappingProxyType({'id': 'm3', 'v': hs.NA})
+    return v
 POOL_MAX = 4
 MAX_ROWS = 80
 
@@ -302,6 +317,7 @@ class GridMachine(BaseCheck):
             g, model = pool[gi_target]
             pinned_pre3 = (gi_target in derived_idx or case.get('gver') is not None) and str(g.version) in ('2.0', '1.0')
             before_ids = [id(x) for x in model]
+            before_version = str(g.version)
             gexc = mexc = None
             gret = mret = None
             skipped = False
@@ -337,7 +353,7 @@ class GridMachine(BaseCheck):
                         rs.append(row)
                     if 'bad_at' in o:
                         at = min(o['bad_at'], len(rs))
-                        seq = rs[:at] + [NON_DICTS[o['bad'] % len(NON_DICTS)]] + rs[at:]
+                        seq = rs[:at] + [non_dict(hs, o['bad'])] + rs[at:]
                         allow_prefix = rs[:at]
                         mexc = TypeError('non-dict row')
                     else:
@@ -440,7 +456,7 @@ class GridMachine(BaseCheck):
                     else:
                         new_entry = (ng, want, g)
                 elif op == 'bad':
-                    bad = NON_DICTS[o['bad'] % len(NON_DICTS)]
+                    bad = non_dict(hs, o['bad'])
                     mexc = TypeError('non-dict row')
                     if o['how'] == 'append':
                         g.append(bad)
@@ -509,6 +525,11 @@ class GridMachine(BaseCheck):
                     viol = fail('refused-changed', {'step': step, 'op': o, 'exc': gname,
                                                     'why': 'a refused single-row operation changed the grid',
                                                     'len_before': len(before_ids), 'len_after': len(now)})
+                    break
+                elif mclasses[0] is TypeError and str(g.version) != before_version:
+                    viol = fail('refused-changed', {'step': step, 'op': o, 'exc': gname,
+                                                    'why': 'a refused non-dict row changed the grid version',
+                                                    'was': before_version, 'now': str(g.version)})
                     break
             else:
                 events.append((step, flav, 'ok'))
